@@ -4,7 +4,8 @@ namespace MediaSan.Props.C01R
 open MediaSan MediaSan.Mp4 MediaSan.Spec.Mp4Walk MediaSan.Spec.Mp4Rules MediaSan.Props.C02
 
 theorem planRewrite_spec (ml off pad : Nat) (d : Option Int) (h : planRewrite ml off = .ok (pad, d)) :
-    (d = none ∧ ml + pad = off) ∨ (d = some ((ml : Int) - (off : Int)) ∧ pad = 0) := by
+    (d = none ∧ ml + pad = off) ∨ (d = some ((ml : Int) - (off : Int)) ∧ pad = 0 ∧
+      -2147483648 ≤ (ml : Int) - (off : Int) ∧ (ml : Int) - (off : Int) ≤ 2147483647) := by
   unfold planRewrite at h
   split at h
   · rename_i hle
@@ -17,15 +18,17 @@ theorem planRewrite_spec (ml off pad : Nat) (d : Option Int) (h : planRewrite ml
       · simp only [Except.ok.injEq, Prod.mk.injEq] at h
         left; exact ⟨h.2.symm, by omega⟩
       · split at h
-        · simp only [Except.ok.injEq, Prod.mk.injEq] at h
-          right; refine ⟨?_, h.1.symm⟩
+        · rename_i hg
+          simp only [Except.ok.injEq, Prod.mk.injEq] at h
+          right; refine ⟨?_, h.1.symm, by omega, by omega⟩
           rw [← h.2]; congr 1; omega
         · cases h
   · rename_i hle
     dsimp only at h
     split at h
-    · simp only [Except.ok.injEq, Prod.mk.injEq] at h
-      right; refine ⟨?_, h.1.symm⟩
+    · rename_i hg
+      simp only [Except.ok.injEq, Prod.mk.injEq] at h
+      right; refine ⟨?_, h.1.symm, by omega, by omega⟩
       rw [← h.2]; congr 1; omega
     · cases h
 
@@ -49,7 +52,8 @@ theorem finish_cases (st : ScanState) (r : Sanitized) (md : Bytes) (hs : SerOk s
       (∀ hp ∈ mdBoxes fh mh (ftyp.data.ser ftypSer) mp pad, hp.1.WF ∧ hp.1.dataSize = .ok (some hp.2.length)) ∧
       fh.ty = FTYP ∧ mh.ty = MOOV ∧ mp.length = moov.data.len ser5 ∧
       (((md.length : Int) - (r.data.offset : Int) = 0 ∧ mp = moov.data.ser ser5) ∨
-       (∃ d, displaceMoov ((md.length : Int) - (r.data.offset : Int)) moov.data = .ok d ∧ mp = d.ser ser5)) := by
+       (∃ d, displaceMoov ((md.length : Int) - (r.data.offset : Int)) moov.data = .ok d ∧ mp = d.ser ser5 ∧
+          -2147483648 ≤ (md.length : Int) - (r.data.offset : Int) ∧ (md.length : Int) - (r.data.offset : Int) ≤ 2147483647)) := by
   unfold finish at h
   cases hf : st.ftyp with
   | none => rw [hf] at h; cases h
@@ -102,7 +106,7 @@ theorem finish_cases (st : ScanState) (r : Sanitized) (md : Bytes) (hs : SerOk s
                       obtain ⟨h1, h2, h3, h4⟩ := assemble_boxes fh mh ftyp.data moov.data _ pad hwf hwm hfs hms rfl hpad
                       have hlen := serBoxes_mdBoxes_length fh mh (ftyp.data.ser ftypSer) (moov.data.ser ser5) pad f3 m3 hpad
                       refine ⟨ftyp, moov, fh, mh, pad, _, rfl, rfl, by rw [← hmd, h1], h2, h3, h4, hms, Or.inl ⟨?_, rfl⟩⟩
-                      rcases hsp with ⟨_, e⟩ | ⟨e, _⟩
+                      rcases hsp with ⟨_, e⟩ | ⟨e, _, _, _⟩
                       · rw [← hmd, h1, hlen, hdat, hfs, hms]
                         rw [fl, mlen] at e
                         omega
@@ -126,14 +130,16 @@ theorem finish_cases (st : ScanState) (r : Sanitized) (md : Bytes) (hs : SerOk s
                           simp only [Box.len, Box.calcHeader, hl2]
                         obtain ⟨h1, h2, h3, h4⟩ := assemble_boxes fh mh ftyp.data d _ pad hwf hwm' hfs hms' hml hpad
                         have hlen := serBoxes_mdBoxes_length fh mh (ftyp.data.ser ftypSer) (d.ser ser5) pad f3 m3 hpad
-                        refine ⟨ftyp, moov, fh, mh, pad, _, rfl, rfl, by rw [← hmd, h1], h2, h3, h4, by rw [hms', hl2], Or.inr ⟨d, ?_, rfl⟩⟩
-                        rcases hsp with ⟨e, _⟩ | ⟨e, e0⟩
+                        rcases hsp with ⟨e, _⟩ | ⟨e, e0, b1, b2⟩
                         · cases e
                         · simp only [Option.some.injEq] at e
-                          have : (md.length : Int) - (r.data.offset : Int) = dv := by
+                          have hsh : (md.length : Int) - (r.data.offset : Int) = dv := by
                             rw [← hmd, h1, hlen, hdat, hfs, hms', hl2, e0, e, fl, mlen]
                             omega
-                          rw [this]; exact hdm
+                          refine ⟨ftyp, moov, fh, mh, pad, _, rfl, rfl, by rw [← hmd, h1], h2, h3, h4, by rw [hms', hl2],
+                            Or.inr ⟨d, by rw [hsh]; exact hdm, rfl, ?_, ?_⟩⟩
+                          · rw [hsh, e]; exact b1
+                          · rw [hsh, e]; exact b2
 
 
 section
@@ -302,7 +308,7 @@ theorem relocated (cfg : Config) (r : Sanitized) (md : Bytes)
     obtain ⟨p1, p2⟩ := md_moov_payload fh mh (ftyp.data.ser ftypSer) mp pad hfw hmw
     have hmplen : mp.length = m.payloadLen := by rw [hmpl, hdata, hdlen]
     rw [hmplen] at p1 p2
-    rcases hcase with ⟨hshift, hmp⟩ | ⟨d', hdis, hmp⟩
+    rcases hcase with ⟨hshift, hmp⟩ | ⟨d', hdis, hmp, _, _⟩
     · -- padding (or no gap): the tree is serialised as validated
       obtain ⟨counts, hmod⟩ := validate_as_modify _ d total hv
       obtain ⟨T, t1, t2, t3, t4, t5, t6⟩ := moov_splice s _ keepsShape_count m hle d counts hmod
@@ -356,6 +362,122 @@ theorem relocated (cfg : Config) (r : Sanitized) (md : Bytes)
           dsimp only
           rw [hent, ← entryAt_read s _ _ _ _ hi]
           exact ⟨q1, q2, q3⟩
+
+
+/-- everything at once: the walker's view of the input, and the returned metadata as the box sequence built from it -/
+theorem relocated_full (cfg : Config) (r : Sanitized) (md : Bytes)
+    (h : Mp4.sanitize s kind cfg = .ok r) (hmd : r.metadata = some md) :
+    ∃ (bs : List TopBox) (f m : TopBox) (T : List (Region × Bytes)) (fh mh : BoxHeader) (pad : Nat) (mp : Bytes),
+      walkAll s 0 s.len cfg.cumulativeMdatBoxSize = .clean bs ∧
+      bs.find? (fun b => decide (b.name = ftypN)) = some f ∧ lastMoov bs = some m ∧
+      moovTables s m = some (T.map (·.1)) ∧ m.payloadOff ≤ m.endOff ∧ Ordered m.payloadOff m.endOff T ∧ Fits T ∧
+      md = serBoxes (mdBoxes fh mh (s.read f.payloadOff f.payloadLen) mp pad) ∧
+      (∀ hp ∈ mdBoxes fh mh (s.read f.payloadOff f.payloadLen) mp pad, hp.1.WF ∧ hp.1.dataSize = .ok (some hp.2.length)) ∧
+      fh.ty = FTYP ∧ mh.ty = MOOV ∧ mp = msplice s m.payloadOff m.endOff T ∧ mp.length = m.payloadLen ∧
+      (∀ x ∈ T, ∀ i, i < x.1.count →
+        (Mp4.entryAt x.1.width x.2 i : Int) = (Spec.Mp4Walk.entryAt s x.1 i : Int) + ((md.length : Int) - (r.data.offset : Int)) ∧
+        0 ≤ (Spec.Mp4Walk.entryAt s x.1 i : Int) + ((md.length : Int) - (r.data.offset : Int)) ∧
+        (Spec.Mp4Walk.entryAt s x.1 i : Int) + ((md.length : Int) - (r.data.offset : Int)) < (256 : Int) ^ x.1.width) ∧
+      -2147483648 ≤ (md.length : Int) - (r.data.offset : Int) ∧ (md.length : Int) - (r.data.offset : Int) ≤ 2147483647 := by
+  obtain ⟨st, bs, hw, hser, hkept, hkf, hfin⟩ := sanitize_keep s kind cfg r h
+  obtain ⟨ftyp, moov, fh, mh, pad, mp, hft, hmv, hmdeq, hall, hfty, hmty, hmpl, hcase⟩ := finish_cases st r md hser hfin hmd
+  have hfw := (hall (fh, ftyp.data.ser ftypSer) (by simp [mdBoxes])).1
+  have hmw := (hall (mh, mp) (by simp [mdBoxes])).1
+  -- the ftyp
+  unfold KeptFIs at hkf
+  cases hfd : bs.find? (fun b => decide (b.name = ftypN)) with
+  | none => rw [hfd] at hkf; dsimp only at hkf; rw [hft] at hkf; cases hkf
+  | some f =>
+  rw [hfd] at hkf
+  obtain ⟨_, f', ef1, ef2⟩ := hkf
+  rw [hft] at ef1
+  simp only [Option.some.injEq] at ef1
+  subst ef1
+  rw [ef2] at hmdeq hall
+  unfold KeptIs at hkept
+  cases hlm : lastMoov bs with
+  | none =>
+    rw [hlm] at hkept
+    dsimp only at hkept
+    rw [hmv] at hkept
+    cases hkept
+  | some m =>
+    rw [hlm] at hkept
+    obtain ⟨hdr, d, total, e1, hv⟩ := hkept
+    rw [hmv] at e1
+    simp only [Option.some.injEq] at e1
+    have hdata : moov.data = d := by rw [e1]
+    -- the walker's box has room for its header
+    have hle : m.payloadOff ≤ m.endOff := by
+      by_cases hq : m.payloadOff ≤ m.endOff
+      · exact hq
+      · have : m.payloadLen = 0 := by unfold TopBox.payloadLen; omega
+        rw [this] at hv
+        have : s.read m.payloadOff 0 = [] := rfl
+        rw [this] at hv
+        have : validateMoov (Data.bytes ([] : Bytes)) = .err .missingRequiredBox := rfl
+        rw [this] at hv; cases hv
+    have hdlen : d.len ser5 = m.payloadLen := by
+      have := validateMoov_len _ d total hv
+      rw [this, read_length]
+    obtain ⟨p1, p2⟩ := md_moov_payload fh mh (ftyp.data.ser ftypSer) mp pad hfw hmw
+    have hmplen : mp.length = m.payloadLen := by rw [hmpl, hdata, hdlen]
+    rw [hmplen] at p1 p2
+    rcases hcase with ⟨hshift, hmp⟩ | ⟨d', hdis, hmp, hb1, hb2⟩
+    · -- padding (or no gap): the tree is serialised as validated
+      obtain ⟨counts, hmod⟩ := validate_as_modify _ d total hv
+      obtain ⟨T, t1, t2, t3, t4, t5, t6⟩ := moov_splice s _ keepsShape_count m hle d counts hmod
+      refine ⟨bs, f, m, T.map (fun x => (x.1, x.2.1.entries)), fh, mh, pad, mp, hw, hfd, hlm, ?_, hle,
+        ordered_map (fun (y : Co × Nat) => y.1.entries) _ _ _ t4, fits_of_shape s _ keepsShape_count T t3, hmdeq, hall, hfty, hmty,
+        by rw [hmp, hdata, t5], hmplen, ?_, by rw [hshift]; decide, by rw [hshift]; decide⟩
+      · rw [t1, List.map_map]; rfl
+      · intro x hx i hi
+        obtain ⟨y, hy, rfl⟩ := List.mem_map.mp hx
+        have hf := t3 y hy
+        simp only [PureRes.ok.injEq] at hf
+        have hent : y.2.1.entries = s.read y.1.off (y.1.width * y.1.count) := by rw [← hf]
+        dsimp only
+        rw [hshift, hent, entryAt_read s _ _ _ _ hi]
+        have hwd := moovTables_width s m _ t1 y.1 (List.mem_map.mpr ⟨y, hy, rfl⟩)
+        have hlt : Spec.Mp4Walk.entryAt s y.1 i < 256 ^ y.1.width := by
+          unfold Spec.Mp4Walk.entryAt be
+          have := beToNat_lt (s.read (y.1.off + y.1.width * i) y.1.width)
+          rw [read_length] at this; exact this
+        refine ⟨by rw [Int.add_zero], by omega, ?_⟩
+        rw [Int.add_zero]
+        have := Int.ofNat_lt.mpr hlt
+        rw [Int.natCast_pow] at this
+        exact this
+    · -- displacement
+      obtain ⟨d'', us, hmod, hs1, hs2⟩ := displace_validated _ d total hv _ d' (by rw [← hdata]; exact hdis)
+      obtain ⟨T, t1, t2, t3, t4, t5, t6⟩ := moov_splice s _ (keepsShape_displace _) m hle d'' us hmod
+      refine ⟨bs, f, m, T.map (fun x => (x.1, x.2.1.entries)), fh, mh, pad, mp, hw, hfd, hlm, ?_, hle,
+        ordered_map (fun (y : Co × Unit) => y.1.entries) _ _ _ t4, fits_of_shape s _ (keepsShape_displace _) T t3, hmdeq, hall, hfty, hmty,
+        by rw [hmp, ← hs1, t5], hmplen, ?_, hb1, hb2⟩
+      · rw [t1, List.map_map]; rfl
+      · intro x hx i hi
+        obtain ⟨y, hy, rfl⟩ := List.mem_map.mp hx
+        have hf := t3 y hy
+        have hwd := moovTables_width s m _ t1 y.1 (List.mem_map.mpr ⟨y, hy, rfl⟩)
+        have hwpos : 0 < y.1.width := by rcases hwd with e | e <;> omega
+        unfold displaceCo at hf
+        dsimp only at hf
+        cases hde : displaceEntries y.1.width ((md.length : Int) - (r.data.offset : Int))
+            (s.read y.1.off (y.1.width * y.1.count)).length (s.read y.1.off (y.1.width * y.1.count)) with
+        | err e => rw [hde] at hf; cases hf
+        | panic e => rw [hde] at hf; cases hf
+        | ok out =>
+          rw [hde] at hf
+          simp only [PureRes.ok.injEq] at hf
+          have hent : y.2.1.entries = out := by rw [← hf]
+          obtain ⟨_, hall'⟩ := displaceEntries_ok y.1.width hwpos _ _ _ out (Nat.le_refl _) hde
+          have hfit : y.1.width * (i + 1) ≤ (s.read y.1.off (y.1.width * y.1.count)).length := by
+            rw [read_length]; exact Nat.mul_le_mul_left _ hi
+          obtain ⟨q1, q2, q3⟩ := hall' i hfit
+          dsimp only
+          rw [hent, ← entryAt_read s _ _ _ _ hi]
+          exact ⟨q1, q2, q3⟩
+
 
 
 /-- the ftyp payload inside the returned metadata is the payload of the input's (first) ftyp box, byte for byte -/
